@@ -94,11 +94,38 @@ def effects(fa, rename=None, keep_calls=True, drop_guards=()):
     return out
 
 
+_ABBREV = {}
+
+
+def _abbrev_table(ref):
+    """Names of the reference model for its intermediate values (display only)."""
+    tab = {}
+    for e in ref.events:
+        if e.kind in ('assign', 'aug') and isinstance(e.d.get('value' if e.kind == 'assign' else 'new'), tuple):
+            v = e.d['value' if e.kind == 'assign' else 'new']
+            if v[0] in ('c', 'v', 'g') or len(T.show(v)) < 30:
+                continue
+            tab.setdefault(v, T.V('«' + e.name + '»'))
+    return tab
+
+
+def _sh(x):
+    if not isinstance(x, tuple):
+        return str(x)
+    if _ABBREV:
+        # abbreviate proper sub-terms only, so the top-level shape stays visible
+        if T.is_term(x):
+            x = (x[0],) + tuple(T.subst(y, _ABBREV) if isinstance(y, tuple) else y for y in x[1:])
+        else:
+            x = tuple(T.subst(y, _ABBREV) if isinstance(y, tuple) else y for y in x)
+    return T.show(x)
+
+
 def _show_effect(p, gs):
     parts = []
     for x in p[1:]:
-        parts.append(T.show(x) if isinstance(x, tuple) else str(x))
-    g = ' & '.join(sorted(('' if pol else 'not ') + T.show(c) for c, pol in gs))
+        parts.append(_sh(x) if isinstance(x, tuple) else str(x))
+    g = ' & '.join(sorted(('' if pol else 'not ') + _sh(c) for c, pol in gs))
     s = f'{p[0]} ' + ' , '.join(parts)
     return s + (f'   [when {g}]' if g else '')
 
@@ -121,6 +148,8 @@ def compare(ctx, rule, fa, ref_source, module=None, known=(), ignore=None, why='
             rename[T.V(fa.kwarg)] = T.V(ref.kwarg)
     got = effects(fa, rename, drop_guards=drop_guards)
     want = effects(ref, drop_guards=drop_guards)
+    _ABBREV.clear()
+    _ABBREV.update(_abbrev_table(ref))
     if only_kinds:
         got = [x for x in got if x[0][0] in only_kinds]
         want = [x for x in want if x[0][0] in only_kinds]
@@ -167,6 +196,7 @@ def compare(ctx, rule, fa, ref_source, module=None, known=(), ignore=None, why='
             continue
         k += 1
         _report(ctx, rule, fa, None, None, _show_effect(q, hs), known, why, f'missing-effect#{k}')
+    _ABBREV.clear()
     return ref
 
 
